@@ -610,6 +610,24 @@ func (t *tester) runProgram(m *mdl, prog [][]string, label string) (nontrivial b
 			Case: map[string]interface{}{"program": quoteProg(prog[:at+1]), "label": label}, Impl: impl, Model: mod})
 	}
 	for i, args := range prog {
+		if args[0] == "@sleep" {
+			// pseudo-command of directed programs: let wall-clock time pass (every deadline still armed at
+			// this point is far away). Oracle, no model: with no command executed and no deadline reached,
+			// the visible dataset must not change (the 100 ms expiry sweeper runs meanwhile).
+			ms, _ := strconv.Atoi(args[1])
+			before := t.dump()
+			time.Sleep(time.Duration(ms) * time.Millisecond)
+			after := t.dump()
+			r.Dist("timed-wait")
+			if before != after {
+				fail("oracle", "state-changed-without-command", fmt.Sprintf("the visible dataset changed during %d ms in which no command was sent and no current deadline was reached (an object was expired at a deadline that had been replaced)", ms), i, after, before)
+			}
+			if md := m.ask("dump"); after != md {
+				fail("correspondence", "dump", "full dump after a timed wait differs from the handler model state", i, after, md)
+				return false
+			}
+			continue
+		}
 		cmd := strings.ToLower(args[0])
 		r.Dist("cmd:" + cmd)
 		var before string
@@ -652,9 +670,6 @@ func (t *tester) runProgram(m *mdl, prog [][]string, label string) (nontrivial b
 			sig := "spec-reply-" + cmd
 			if (cmd == "pdel" && len(args) == 3 && litPrefixEndsFF(args[2])) || (cmd == "keys" && len(args) == 2 && litPrefixEndsFF(args[1])) {
 				sig += "-prefix-ff"
-			}
-			if cmd == "scan" && scanCountHugeCursor(args) {
-				sig += "-count-cursor"
 			}
 			fail("oracle", sig, fmt.Sprintf("reply of %s is not the reply of the plain-map specification", strings.Join(quoteProg([][]string{args}), "")), i, pretty(got), pretty(mr.spec))
 			if gi != mi {
@@ -1060,7 +1075,19 @@ func runC01(r *hx.Result, cfg hx.Config) {
 			S("SCAN", "big", "CURSOR", "18446744073709551615", "IDS"), S("SCAN", "nokey", "COUNT"), S("SCAN", "nokey", "LIMIT", "5"), S("PDEL", "big", "id1*"), S("SCAN", "big", "COUNT"), S("SCAN", "big", "CURSOR", "50", "IDS"))
 		corpus = append(corpus, big)
 	}
-	corpus = append(corpus, [][]string{S("SET", "k", "a", "POINT", "1", "1"), S("SET", "k", "b", "POINT", "1", "1"), S("SCAN", "k", "CURSOR", "1", "COUNT"), S("SCAN", "k", "CURSOR", "18446744073709551615", "COUNT")})
+	corpus = append(corpus, [][]string{S("SET", "k", "a", "POINT", "1", "1"), S("SET", "k", "b", "POINT", "1", "1"), S("SET", "k", "c", "STRING", "s"), S("SCAN", "k", "CURSOR", "1", "COUNT"), S("SCAN", "k", "CURSOR", "18446744073709551615", "COUNT"),
+		S("SCAN", "k", "LIMIT", "2", "COUNT"), S("SCAN", "k", "CURSOR", "2", "LIMIT", "2", "COUNT"), S("SCAN", "k", "CURSOR", "3", "COUNT"), S("SCAN", "k", "LIMIT", "2", "MATCH", "*", "COUNT"), S("SCAN", "k", "LIMIT", "1", "MATCH", "[ab]", "COUNT")})
+	// replacing a deadline replaces it: a short deadline re-armed far away (EXPIRE, SET .. EX over SET .. EX),
+	// cleared (PERSIST), or gone with its object (DEL, then the id re-created without deadline) must not fire
+	corpus = append(corpus, [][]string{
+		S("SET", "t", "a", "EX", "1", "FIELD", "f", "1", "POINT", "1", "1"), S("EXPIRE", "t", "a", "1000"), S("TTL", "t", "a"),
+		S("SET", "t", "b", "EX", "1", "POINT", "2", "2"), S("SET", "t", "b", "EX", "1000", "POINT", "3", "3"),
+		S("SET", "t", "c", "EX", "1", "STRING", "s"), S("EXPIRE", "t", "c", "1000"), S("DEL", "t", "c"), S("SET", "t", "c", "STRING", "again"),
+		S("SET", "t", "d", "EX", "1", "POINT", "4", "4"), S("PERSIST", "t", "d"),
+		S("SET", "u", "e", "EX", "1", "POINT", "5", "5"), S("EXPIRE", "u", "e", "500"), S("FSET", "u", "e", "g", "2"), S("RENAME", "u", "v"),
+		S("@sleep", "1350"),
+		S("GET", "t", "a", "WITHFIELDS"), S("TTL", "t", "a"), S("GET", "t", "b"), S("TTL", "t", "b"), S("GET", "t", "c"), S("TTL", "t", "c"), S("TTL", "t", "d"), S("GET", "v", "e", "WITHFIELDS"), S("TTL", "v", "e"),
+		S("SCAN", "t", "IDS"), S("KEYS", "*")})
 	for i, p := range corpus {
 		nt := t.runProgram(m, p, fmt.Sprintf("corpus-%d", i))
 		r.Count("corpus:"+strings.Join(quoteProg(p), ";"), nt)
